@@ -51,6 +51,14 @@ const reflectDictXML = `<?xml version="1.0" encoding="UTF-8"?>
   <avp name="V-VNOVENDOR" code="9024" must="V" may="P" must-not="-" may-encrypt="-"><data type="OctetString"/></avp>
   <avp name="V-GNOV" code="9025" vendor-id="10415" must="M" may="P" must-not="-" may-encrypt="-"><data type="Grouped"/></avp>
  </application>
+ <application id="77" type="auth" name="Reflect-Other">
+  <avp name="V-U32" code="9107" must="-" may="P,M" must-not="V" may-encrypt="-"><data type="Unsigned32"/></avp>
+  <avp name="V-OS" code="9001" vendor-id="10415" must="M,V" may="P" must-not="-" may-encrypt="-"><data type="OctetString"/></avp>
+  <avp name="V-GRP" code="9118" must="-" may="P,M" must-not="V" may-encrypt="-"><data type="Grouped"/></avp>
+  <avp name="V-ID" code="9003" must="-" may="P,M" must-not="V" may-encrypt="-"><data type="DiameterIdentity"/></avp>
+  <avp name="V-I64" code="9110" vendor-id="5535" must="V" may="P" must-not="-" may-encrypt="-"><data type="Integer64"/></avp>
+  <avp name="V-VU32" code="9020" must="M" may="P" must-not="V" may-encrypt="-"><data type="Unsigned32"/></avp>
+ </application>
 </diameter>`
 
 var reflectDict *dict.Parser
@@ -575,6 +583,11 @@ func execReflect(toks []string) string {
 	seedS, _ := kvGet(toks, "seed")
 	ty, _ := strconv.Atoi(tyS)
 	seed, _ := strconv.ParseUint(seedS, 10, 64)
+	app := uint32(0) // the application the message belongs to: names resolve in it first, then in the base
+	if a, ok := kvGet(toks, "app"); ok {
+		n, _ := strconv.ParseUint(a, 10, 32)
+		app = uint32(n)
+	}
 	if ty < 0 || ty >= len(rfFamily) {
 		return "badinput"
 	}
@@ -587,7 +600,7 @@ func execReflect(toks []string) string {
 	val := valueOf(reflect.ValueOf(src).Elem())
 	var dents []string
 	for _, n := range names.order {
-		a, err := p.FindAVP(uint32(0), n)
+		a, err := p.FindAVP(app, n)
 		if err != nil {
 			dents = append(dents, "none")
 			continue
@@ -602,7 +615,7 @@ func execReflect(toks []string) string {
 	if d == "" {
 		d = "-"
 	}
-	m := diam.NewMessage(280, 0x80, 0, 1, 1, p)
+	m := diam.NewMessage(280, 0x80, app, 1, 1, p)
 	res := fmt.Sprintf("dict=%s sh=%s v=%s ", d, sh, val)
 	var merr error
 	if g := guard(func() { merr = m.Marshal(src) }); g != "" {
@@ -655,9 +668,39 @@ func execReflect(toks []string) string {
 	return res
 }
 
+// rawAVPFields reports whether a struct type carries diam.AVP / *diam.AVP / []*diam.AVP fields
+// (fillValue builds those from the base application's codes, so they stay with application 0)
+func rawAVPFields(t reflect.Type, depth int) bool {
+	for t.Kind() == reflect.Ptr || t.Kind() == reflect.Slice {
+		t = t.Elem()
+	}
+	if t == reflect.TypeOf(diam.AVP{}) {
+		return true
+	}
+	if t.Kind() != reflect.Struct || depth > 6 {
+		return false
+	}
+	for i := 0; i < t.NumField(); i++ {
+		if rawAVPFields(t.Field(i).Type, depth+1) {
+			return true
+		}
+	}
+	return false
+}
+
 func genReflect(r *RNG, n int, op string, emit func(string)) {
+	raw := make([]bool, len(rfFamily))
+	for i := range rfFamily {
+		raw[i] = rawAVPFields(reflect.TypeOf(rfFamily[i]()).Elem(), 0)
+	}
 	for i := 0; i < n; i++ {
-		emit(fmt.Sprintf("reflect rt ty=%d seed=%d", i%len(rfFamily), r.U32()))
+		// the same struct types are used with two applications that define some of the names
+		// differently (code, vendor id, flags), interleaved within one process
+		app := []int{0, 0, 77}[r.Intn(3)]
+		if raw[i%len(rfFamily)] {
+			app = 0
+		}
+		emit(fmt.Sprintf("reflect rt ty=%d seed=%d app=%d", i%len(rfFamily), r.U32(), app))
 	}
 }
 
